@@ -46,7 +46,9 @@ CONFIG = {
             "lengths 3-5 / 254-257 bytes in ASCII and multi-byte; b64: random byte strings encoded in both alphabets, then single "
             "edits (padding, whitespace, foreign bytes, mixed alphabets, other trailing bits), bounded-exhaustive texts over "
             "`A Q / + - _ = LF`, JSON string spellings; limits: every field at (code points, bytes) pairs on both sides of 255 x JSON "
-            "lengths 65535/65536/65537 x 16 versions x 3 entry points, random combinations, malformed IDs, CREATE events of the "
+            "lengths 65535/65536/65537 x 16 versions x 3 entry points, random combinations, malformed IDs, the same boundaries with the "
+            "bytes under `unsigned` (limits.build_unsigned: the proto-event's Unsigned handed to Build; limits.trusted_setunsigned: "
+            "SetUnsigned on a small event, then CheckFields — the limit is on the event's JSON whichever member carries the bytes), CREATE events of the "
             "domain-less room versions carrying a room_id member of every (code points, bytes) size (parse paths; Build refuses any room ID "
             "there), and limits.receipt_text: receipt of whole event texts in which an over-long type / state_key / sender / room_id stands "
             "beside a short case variant of the name (the specification reads the limits off the exact members of the JSON; such texts are "
